@@ -151,6 +151,39 @@ def clean_exit_scripts(rng, n):
     return out
 
 
+def condition_form_scripts(tier, with_starts=False):
+    """conditions of every expression FORM (not only `c < n`): every binary operator (the method-style ones & && contains starts
+    included) x eight kinds of left operand (variable, integer, float, string, unary minus, not, infix operation, call, list) x three
+    right operands, as the condition of an if, an if-else and a repeat while (finding F160: a JavaScript condition that merely
+    STARTS with a parenthesis was emitted without its own)"""
+    lefts = [["l", "c"], ["i", 1], ["f", 15, 1], ["s", S("ab")], ["u", "neg", ["l", "c"]], ["u", "not", ["l", "c"]],
+             ["b", "add", ["l", "c"], ["i", 1]], ["c", "random", ["i", 9]], ["li", ["i", 1], ["i", 2]]]
+    rights = [["i", 2], ["l", "x"], ["b", "mul", ["l", "x"], ["i", 3]]]
+    ops = [o for o in L.BINOPS if o != "starts" or with_starts]      # `starts`: open finding F40 of C02 (the Lingo text prints `start`)
+    hs, out, k = [], [], 0
+    for op in ops:
+        for a in lefts:
+            for b in (rights[:2] if tier == "quick" else rights):
+                cnd = ["b", op, a, b]
+                k += 1
+                put = lambda n: ["call", "put", ["i", n]]
+                shape = k % 3
+                if shape == 0:
+                    hs.append([["if", cnd, [put(1)], []], put(2)])
+                elif shape == 1:
+                    hs.append([["if", cnd, [put(1)], [put(2)]]])
+                else:
+                    hs.append([["while", cnd, put(1)], put(2)])
+    for u in ("neg", "not"):
+        for a in lefts:
+            hs.append([["if", ["u", u, a], [["call", "put", ["i", 1]]], []], ["while", ["u", u, a], ["call", "put", ["i", 2]]]])
+    for a in lefts:
+        hs.append([["if", a, [["call", "put", ["i", 1]]], []], ["while", a, ["call", "put", ["i", 2]]]])
+    for i in range(0, len(hs), 8):
+        out.append(script_of([["on", "h%d" % j, ["a"]] + b for j, b in enumerate(hs[i:i + 8])], kind="condition-forms"))
+    return out
+
+
 def has_dead_code(items):
     for i, it in enumerate(items):
         if it == "x" and i < len(items) - 1:
@@ -415,6 +448,7 @@ def cases(rng, tier):
         scripts += random_scripts(rng, 500) + long_body_scripts(rng, 30)
         scripts += protocol_scripts(rng, tier) + empty_body_scripts(rng, 300)
         scripts += clean_exit_scripts(rng, 600)
+        scripts += condition_form_scripts(tier)
     else:
         scripts += skeleton_scripts(5, 1, "skel-k5-len1")
         scripts += skeleton_scripts(4, 1, "skel-k4-len01", empties=True)
@@ -423,6 +457,7 @@ def cases(rng, tier):
         scripts += random_scripts(rng, 20000 if tier == "thorough" else 8000) + long_body_scripts(rng, 300)
         scripts += protocol_scripts(rng, tier) + empty_body_scripts(rng, 6000)
         scripts += clean_exit_scripts(rng, 20000 if tier == "thorough" else 8000)
+        scripts += condition_form_scripts(tier)
     # corpus replays are single-script cases (core prepends them)
     cs, rejected = build_cases(scripts)
     cases.rejected = rejected
